@@ -377,6 +377,22 @@ func (rw *rewriter) rangeStmt(rs *ast.RangeStmt) {
 	}
 	e := &edit{lo: rw.off(rs.Pos()), hi: rw.off(rs.Body.Lbrace) + 1}
 	site := rw.site(rs.Pos())
+	if _, isCall := rs.X.(*ast.CallExpr); isCall {
+		// the operand is evaluated once: iterate a snapshot of its entries
+		e.gen = func() string {
+			hdr := "for _, verifP := range " + hookName + ".MapPairs(" + site + ", " + x + ") { "
+			if key != "_" {
+				hdr += key + " := verifP.K; _ = " + key + "; "
+			}
+			if val != "" && val != "_" {
+				hdr += val + " := verifP.V; _ = " + val + "; "
+			}
+			return hdr
+		}
+		rw.edits = append(rw.edits, e)
+		rw.counts["maprange"]++
+		return
+	}
 	e.gen = func() string {
 		k := key
 		if k == "_" {
